@@ -4,6 +4,7 @@ import Driver.Disk
 import Driver.Fs
 import Driver.TestGen
 import Driver.Cli
+import Driver.GL
 
 def main (args : List String) : IO UInt32 := do
   match args with
@@ -17,5 +18,6 @@ def main (args : List String) : IO UInt32 := do
   | ["fs", "dir"] => Driver.lineLoop Driver.Fs.dirStep GooseVerif.Model.Fs.Os.empty; return 0
   | ["tg"] => Driver.lineLoop Driver.TestGen.step (); return 0
   | ["cli"] => Driver.lineLoop Driver.Cli.step (); return 0
+  | ["gl"] => Driver.lineLoop Driver.GL.step {}; return 0
   | ["wt"] => Driver.lineLoop Driver.Prim.wtStep (); return 0
   | _ => IO.eprintln "usage: driver <enc|prim|wt>"; return 2
